@@ -3,7 +3,7 @@
    happens-before over real memory and goroutine scheduling are outside the model;
    see notes/C17.md). *)
 From Coq Require Import List Bool String.
-From Cedar Require Import Model.Lockset Model.LocksetFacts Proofs.C17Lockset Proofs.C17 gen.FactsC17.
+From Cedar Require Import Model.Lockset Model.LocksetFacts Proofs.C17Lockset Proofs.C17Counter Proofs.C17 gen.FactsC17.
 Import ListNotations.
 Local Open Scope string_scope.
 Local Open Scope list_scope.
@@ -57,6 +57,42 @@ Print Assumptions C17_cache_threads_drf.
 Theorem C17_vars_safe : forallb var_ok var_facts = true /\ var_facts <> [].
 Proof. exact vars_safe. Qed.
 Print Assumptions C17_vars_safe.
+
+(* Identifiers handed out by a shared counter: for all thread lists of atomic-add
+   increments and all interleavings the values handed out are pairwise distinct ... *)
+Theorem C17_counter_distinct : forall c0 ts s,
+  Forall (fun t => forallb is_add t = true) ts -> creach (cinit c0 ts) s -> NoDup (c_out s).
+Proof. exact counter_distinct. Qed.
+Print Assumptions C17_counter_distinct.
+
+(* ... whereas Load followed by Store (two events) lets two threads hand out the same value *)
+Theorem C17_load_store_collides :
+  exists s, creach (cinit 0 [[CLoad; CStore]; [CLoad; CStore]]) s /\ c_out s = [1; 1].
+Proof. exact load_store_collides. Qed.
+Print Assumptions C17_load_store_collides.
+
+(* Obligation over the translated source: every function touching a package-level
+   counter does so by atomic adds only (or only loads); GetNextSessionCounter is
+   present and is atomic adds. *)
+Theorem C17_counter_atomic :
+  forallb counter_prog_ok counter_progs = true /\
+  forallb is_add session_counter_ops = true /\ session_counter_ops <> [].
+Proof. exact counter_atomic. Qed.
+Print Assumptions C17_counter_atomic.
+
+(* Hence: any number of goroutines calling the translated GetNextSessionCounter any
+   number of times get pairwise distinct counters (no two sessions share an id). *)
+Theorem C17_session_counters_distinct : forall (c0 : nat) (ncalls : list nat) s,
+  creach (cinit c0 (map calls ncalls)) s -> NoDup (c_out s).
+Proof. exact session_counters_distinct. Qed.
+Print Assumptions C17_session_counters_distinct.
+
+(* No function of security/, client/, server/, ccb/ mutates in place a slice owned by
+   a SecurityConfig (append into a prefix, element assignment, copy/sort into it):
+   per-connection configurations are SHALLOW copies that share those arrays. *)
+Theorem C17_config_slices_immutable : slice_muts = [].
+Proof. exact config_slices_immutable. Qed.
+Print Assumptions C17_config_slices_immutable.
 
 (* Every call site of security.NewAuthenticator in security/, client/, server/,
    ccb/ passes the address of a per-connection copy (never a shared pointer);
